@@ -10,7 +10,8 @@ RULE = ("K: (a) SimulationObject.check_overlap (private anchor, used directly) f
         "thorough), compared exactly with the model's checkOverlap and with a plain Python box-intersection oracle (closed "
         "index ranges on every axis, the convention fixed by tests/unit/objects/test_object.py::TestCheckOverlap); also "
         "symmetry and 'a shared grid cell implies overlap'. (b) fdtdx.place_objects + fdtdx.apply_params on tiny scenes "
-        "(volume 7-10 cells per axis, 1-2 continuous devices, optional static box, 2-4 PointDipoleSource / "
+        "(volume 8^3 (7-10 thorough), ALWAYS 2-3 continuous devices in varying list order incl. fixed scenes whose sources "
+        "overlap only the first / middle / last / two / all / none of three disjoint devices, optional static box, 2-4 PointDipoleSource / "
         "UniformPlaneSource / EnergyDetector boxes whose per-axis relation to a device is drawn from the 13 interval "
         "relations, weighted towards strictly-inside, touching, one-axis-apart): which loop applied each source "
         "(state present after place_objects / object replaced by apply_params) compared exactly with the model's two "
@@ -298,7 +299,7 @@ COVERS = [(-1, -1, 1, 1), (0, -1, 1, 1), (-1, -1, 1, 0), (0, -1, 1, 0)]
 def gen_scene(rng, idx, thorough=False):
     """shapes come from a small set (every new array shape costs seconds of XLA compilation); positions are free"""
     V = [8, 8, 8] if not thorough else [rng.randint(8, 10) for _ in range(3)]
-    nd = 2 if rng.chance(0.3) else 1
+    nd = rng.choice([2, 2, 3])          # always several devices: the re-apply test is an `any` over ALL of them
     devs = []
     for _ in range(nd):
         box = []
@@ -376,10 +377,14 @@ def check_scene(ctx, inp, sample=False):
     rels = []
     for o, t in zip(inp["objects"], tags):
         r = tuple(allen(tuple(o["box"][a]), tuple(inp["devices"][0][a])) for a in range(3))
-        rels.append((o["kind"], r))
+        listed = inp.get("order") or list(range(len(inp["devices"])))
+        dev_pos = [k for k in listed if k < len(inp["devices"])]          # devices in list order
+        hit = tuple(oracle_overlap(tuple(map(tuple, inp["devices"][k])), tuple(map(tuple, o["box"]))) for k in dev_pos)
+        rels.append((o["kind"], (r, hit)))
     for (kind, r), t, m in zip(rels, tags, model):
         ctx.case(sample=None, nontrivial=("scene", kind, r, inp.get("dispersive")), op="scene-object", kind=kind,
-                 dispersive_device=str(inp.get("dispersive")), applied_by={"P": "place_objects", "A": "apply_params"}.get(m, m))
+                 dispersive_device=str(inp.get("dispersive")), devices=len(inp["devices"]),
+                 overlapped_devices_in_list_order="".join("x" if h else "." for h in r[1]), applied_by={"P": "place_objects", "A": "apply_params"}.get(m, m))
         if kind != "detector":
             ctx.expect_equal("loops", inp, t, m)
     if sample:
@@ -401,6 +406,24 @@ def witness_scene(kind="dipole", dispersive=None):
             "order": None, "pseed": 0, "dispersive": dispersive}
 
 
+def multi_device_scene(perm, dispersive=None):
+    """three disjoint device slabs along x and sources that overlap only the first / only the middle / only the last /
+    two / all / none of them; `perm` is the order in which the devices appear in the object list"""
+    devs = [[(0, 2), (1, 7), (2, 8)], [(3, 5), (1, 7), (2, 8)], [(6, 8), (1, 7), (2, 8)]]
+    dip = lambda box: {"kind": "dipole", "box": box, "pol": 2, "stype": "electric"}
+    objects = [dip([(0, 1), (3, 4), (4, 5)]),                       # only dev0
+               dip([(3, 4), (3, 4), (4, 5)]),                       # only dev1
+               dip([(7, 8), (3, 4), (4, 5)]),                       # only dev2
+               dip([(4, 6), (3, 4), (4, 5)]),                       # dev1 and (touching) dev2
+               dip([(3, 4), (3, 4), (0, 1)]),                       # none (one cell below every device)
+               {"kind": "plane", "box": [(3, 5), (3, 5), (4, 5)], "dir": "+", "pol": 0},    # only dev1
+               {"kind": "plane", "box": [(0, 8), (0, 8), (5, 6)], "dir": "-", "pol": 1},    # all three
+               {"kind": "detector", "box": [(0, 2), (2, 3), (3, 4)]}]
+    order = list(perm) + list(range(3, 3 + len(objects)))
+    return {"op": "scene", "volume": [8, 8, 8], "devices": devs, "static": None, "objects": objects, "order": order,
+            "pseed": 3, "dispersive": dispersive}
+
+
 def run(ctx):
     import time
     t0 = time.time()
@@ -412,9 +435,13 @@ def run(ctx):
     # dispersive device material: re-applied sources must see the post-device pole coefficients as well
     check_scene(ctx, witness_scene("dipole", "lorentz"))
     check_scene(ctx, witness_scene("plane", "drude"))
+    # several devices in every list order that puts each of them last once (thorough: all six)
+    perms = [(0, 1, 2), (2, 0, 1), (1, 2, 0)] + ([(0, 2, 1), (1, 0, 2), (2, 1, 0)] if ctx.thorough else [])
+    for k, perm in enumerate(perms):
+        check_scene(ctx, multi_device_scene(perm, [None, "lorentz", "drude"][k % 3]))
     run_predicate(ctx)
     t2 = time.time()
-    n = ctx.scale(14, 80)
+    n = ctx.scale(12, 80)
     for i in range(n):
         check_scene(ctx, gen_scene(ctx.rng, i, ctx.thorough), sample=(i == 0))
     ctx.extra["phase_seconds"] = {"import": round(t1 - t0, 1), "predicate": round(t2 - t1, 1), "scenes": round(time.time() - t2, 1)}
@@ -460,6 +487,13 @@ def search(ctx, hints):
             if d:
                 ctx.violation(witness_scene(kind, disp), d)
                 return
+    for perm in itertools.permutations(range(3)):
+        sc = multi_device_scene(perm)
+        ctx.impl_property_evals += 1
+        d = property_fails(sc)
+        if d:
+            ctx.violation(sc, d)
+            return
     pos = [3, 2, 4, 1, 5, 0, 6]
     for (x, y, z) in sorted(itertools.product(pos, repeat=3), key=lambda p: sum(pos.index(v) for v in p)):
         sc = {"op": "scene", "volume": [7, 7, 7], "devices": [[(2, 5), (2, 5), (2, 5)]], "static": None,
